@@ -91,6 +91,11 @@ type Stream struct {
 	// dropped, and the stream is recycled when it reports back.
 	abandoned bool
 
+	// rejected is why the request is malformed, once that is known. It is
+	// reported at END_HEADERS: until then the CONTINUATION frames of the block
+	// still have to reach the HPACK decoder through this stream.
+	rejected error
+
 	// headerListSize is the running RFC 7540 6.5.2 size of the header block
 	// being decoded, summed across the HEADERS frame and its CONTINUATIONs.
 	headerListSize int
@@ -141,6 +146,7 @@ func NewStream(id uint32, win int32) *Stream {
 	strm.abandoned = false
 	strm.origType = 0
 	strm.headerListSize = 0
+	strm.rejected = nil
 
 	return strm
 }
